@@ -57,6 +57,45 @@ fn main() {
                 verif_dir,
                 write_evidence: !args.iter().any(|a| a == "--no-evidence"),
             };
+            if std::env::var_os("TRSIM_CHILD").is_none() {
+                // The runs happen in a child process: code under test that aborts the process (a
+                // panic inside a destructor during unwinding, a stack overflow) must end up as a
+                // reported violation, not as a dead checker.
+                let exe = std::env::current_exe().unwrap();
+                let st = std::process::Command::new(&exe).args(&args[1..]).env("TRSIM_CHILD", "1").status();
+                match st.as_ref().map(|s| s.code()) {
+                    Ok(Some(c)) if c == 0 || c == 1 || c == 2 => std::process::exit(c),
+                    other => {
+                        println!("the checking process died ({:?}); looking for the run that kills it", other);
+                        let idx_file = format!("{}/out/abort-index-{}-{}", opts.verif_dir, id, std::process::id());
+                        let _ = std::fs::create_dir_all(format!("{}/out", opts.verif_dir));
+                        let _ = std::fs::remove_file(&idx_file);
+                        let st2 = std::process::Command::new(&exe)
+                            .args(&args[1..])
+                            .arg("--no-evidence")
+                            .env("TRSIM_CHILD", "1")
+                            .env("TRSIM_INDEX_FILE", &idx_file)
+                            .stdout(std::process::Stdio::null())
+                            .stderr(std::process::Stdio::null())
+                            .status();
+                        let died = !matches!(st2.as_ref().map(|s| s.code()), Ok(Some(0)) | Ok(Some(1)) | Ok(Some(2)));
+                        let idx = std::fs::read_to_string(&idx_file).ok().and_then(|s| s.trim().parse::<u64>().ok());
+                        let _ = std::fs::remove_file(&idx_file);
+                        match (died, idx) {
+                            (true, Some(i)) => {
+                                let path = driver::write_abort_replay(p.as_ref(), &opts, i, &format!("{:?}", st2.map(|s| s.to_string())));
+                                println!("violation detail: {}.process_abort [] run {} kills the process that executes it (abort, not an unwinding panic): {}", id, i, path);
+                                println!("VIOLATION property={} replay={}", id, path);
+                                std::process::exit(1);
+                            }
+                            _ => {
+                                println!("HARNESS-ERROR property={} the checking process died but a single-threaded pass did not reproduce it", id);
+                                std::process::exit(2);
+                            }
+                        }
+                    }
+                }
+            }
             let code = driver::check(p.as_ref(), &opts);
             std::process::exit(code);
         }
@@ -81,6 +120,16 @@ fn main() {
                     println!("REPLAY property={} supplement reproduced={}", id, hit.is_some());
                 }
                 std::process::exit(if hit.is_some() { 1 } else { 0 });
+            }
+            if j["rule"].as_str().map(|r| r.ends_with(".process_abort")).unwrap_or(false) && std::env::var_os("TRSIM_CHILD").is_none() {
+                // the recorded run kills its process: execute it in a child and report how it ended
+                let exe = std::env::current_exe().unwrap();
+                let st = std::process::Command::new(exe).args(&args[1..]).env("TRSIM_CHILD", "1").stdout(std::process::Stdio::null()).stderr(std::process::Stdio::null()).status();
+                let died = !matches!(st.as_ref().map(|s| s.code()), Ok(Some(0)) | Ok(Some(1)) | Ok(Some(2)) | Ok(Some(3)));
+                if !quiet {
+                    println!("REPLAY property={} reproduced={} :: the run {} its process ({:?})", id, died, if died { "killed" } else { "did not kill" }, st.map(|s| s.to_string()));
+                }
+                std::process::exit(if died { 1 } else { 0 });
             }
             let (rep, dig, msg) = driver::replay_file(p.as_ref(), &j);
             if !quiet {
